@@ -89,18 +89,20 @@ func (o *Opt) Keys() []string {
 
 // Cmd - declaration of one command (the root is a Cmd too).
 type Cmd struct {
-	Name      string      `json:"name"`
-	Desc      string      `json:"desc,omitempty"`
-	HasFn     bool        `json:"hasfn,omitempty"`
-	FnErr     bool        `json:"fnerr,omitempty"` // CommandFn returns a sentinel error
-	Unset     bool        `json:"unset,omitempty"`
-	Unknown   int         `json:"unknown"` // -1 inherit (no call), else SetUnknownMode
-	ReqOrder  bool        `json:"reqorder,omitempty"`
-	Opts      []*Opt      `json:"opts,omitempty"`
-	Cmds      []*Cmd      `json:"cmds,omitempty"`
-	ArgComp   []string    `json:"argcomp,omitempty"`
-	ArgCompFn []string    `json:"argcompfn,omitempty"`
-	SynArgs   [][2]string `json:"synargs,omitempty"`
+	Name      string   `json:"name"`
+	Desc      string   `json:"desc,omitempty"`
+	HasFn     bool     `json:"hasfn,omitempty"`
+	FnErr     bool     `json:"fnerr,omitempty"` // CommandFn returns a sentinel error
+	Unset     bool     `json:"unset,omitempty"`
+	Unknown   int      `json:"unknown"` // -1 inherit (no call), else SetUnknownMode
+	ReqOrder  bool     `json:"reqorder,omitempty"`
+	Opts      []*Opt   `json:"opts,omitempty"`
+	Cmds      []*Cmd   `json:"cmds,omitempty"`
+	ArgComp   []string `json:"argcomp,omitempty"`
+	ArgCompFn []string `json:"argcompfn,omitempty"`
+	// ArgCompFnSplit - the dynamic candidates come from two functions registered through two ArgCompletionsFns calls
+	ArgCompFnSplit bool        `json:"argcompfnsplit,omitempty"`
+	SynArgs        [][2]string `json:"synargs,omitempty"`
 }
 
 // Prog - a complete program definition.
@@ -544,10 +546,21 @@ func (b *Built) defineLevel(g *getoptions.GetOpt, c *Cmd, path string) {
 	}
 	if len(c.ArgCompFn) > 0 {
 		ret := c.ArgCompFn
-		g.ArgCompletionsFns(func(target string, prev []string, partial string) []string {
-			b.CompCalls++
-			return append([]string{}, ret...)
-		})
+		if c.ArgCompFnSplit && len(ret) >= 2 {
+			first, second := ret[:1], ret[1:]
+			g.ArgCompletionsFns(func(target string, prev []string, partial string) []string {
+				b.CompCalls++
+				return append([]string{}, first...)
+			})
+			g.ArgCompletionsFns(func(target string, prev []string, partial string) []string {
+				return append([]string{}, second...)
+			})
+		} else {
+			g.ArgCompletionsFns(func(target string, prev []string, partial string) []string {
+				b.CompCalls++
+				return append([]string{}, ret...)
+			})
+		}
 	}
 	for _, o := range c.Opts {
 		if !o.Late && !o.Mid {
